@@ -39,7 +39,7 @@ GUARDS = {
 }
 KINDS = ['Function', 'Constructor', 'Fallback', 'Receive', 'Modifier']
 VIS = [None, 'public', 'external', 'internal', 'private']
-MODS = [None, 'onlyOwner', 'only', 'whenNotPaused', 'nonlyReentrant']
+MODS = [None, 'onlyOwner', 'only', 'whenNotPaused', 'nonlyReentrant', 'onlyOwner()', 'onlyRole(ADMIN)', 'whenNotPaused()']
 SHAPES = ['guard_then_kill', 'kill_then_guard', 'kill_in_if', 'guard_in_if_kill_after',
           # a second, unrelated call in front of / behind the guard: a comparison that does not mention the sender, a call without arguments
           'unrelated_comparison_then_guard_then_kill', 'guard_then_unrelated_comparison_then_kill', 'call_without_arguments_then_guard_then_kill']
@@ -66,7 +66,13 @@ def selfdestruct_file(b, kind, vis, mod, kill, guard, shape, where='contract'):
     if vis:
         attrs.append(b.fattr('visibility', vis))
     if mod:
-        attrs.append(b.fattr('modifier', mod, None))
+        # `name`, `name()` and `name(arg)` are three spellings of a modifier invocation
+        if mod.endswith('()'):
+            attrs.append(b.fattr('modifier', mod[:-2], []))
+        elif mod.endswith(')'):
+            attrs.append(b.fattr('modifier', mod[:mod.index('(')], [b.var(mod[mod.index('(') + 1:-1])]))
+        else:
+            attrs.append(b.fattr('modifier', mod, None))
     name = 'kill' if kind in ('Function', 'Modifier') else None
     fd = b.function(kind, name, [], attrs, b.block(stmts))
     other = fam.fn_def(b, [b.expr_stmt(b.call(b.var('require'), [b.bin('Equal', sender(b), b.var('owner'))]))], name='other')
@@ -171,7 +177,7 @@ def body(chk):
         combos.append(('Function', None, None, kill, guard, 'guard_then_kill', 'free'))
     if chk.quick:
         chk.rng.shuffle(combos)
-        keep = [c for c in combos if c[0] == 'Function' and c[1] in ('public', 'external') and c[2] in (None, 'onlyOwner')]
+        keep = [c for c in combos if c[0] == 'Function' and c[1] in ('public', 'external') and c[2] in (None, 'onlyOwner', 'onlyOwner()', 'onlyRole(ADMIN)')]
         two = [c for c in combos if c[5] in SHAPES[4:] and c[1] == 'public']
         combos = keep[:250] + combos[:400] + two[:90]
     for k in range(0, len(combos), 80):
